@@ -474,19 +474,19 @@ Qed.
 
 Lemma known_unpack fx p m q : KnownClass_span fx p m q = false ->
   (negb (span_vis m) && existsb (fun c => ceq c CR) (after_last_nl p) = false) /\
-  (fx = false -> span_vis m = true ->
+  (fix_continued fx = false -> span_vis m = true ->
    match meet_of p m q with
    | r0 :: r1 :: rest => match slice (p ++ m ++ q) (fst (last rest r1)) (snd (last rest r1)) with
                          | Some l2 => has_crlf l2 | None => false end
    | _ => false end = false) /\
   (ends_lf m = true -> q = []) /\
-  (m = [] -> q = [] -> after_last_nl p = []).
+  (fix_eoi_line fx = false -> m = [] -> q = [] -> after_last_nl p = []).
 Proof.
   unfold KnownClass_span. intros H. apply orb_false_iff in H as [H H4]. apply orb_false_iff in H as [H H3].
   apply orb_false_iff in H as [H1 H2]. split; [exact H1|]. split; [|split].
-  - intros -> Hv. rewrite Hv in H2. exact H2.
+  - intros Hf Hv. rewrite Hf, Hv in H2. exact H2.
   - intros He. rewrite He in H3. destruct q; [reflexivity|discriminate].
-  - intros -> ->. destruct (after_last_nl p); [reflexivity|discriminate].
+  - intros Hf -> ->. rewrite Hf in H4. destruct (after_last_nl p); [reflexivity|discriminate].
 Qed.
 
 Lemma last_map {A B} (f : A -> B) l d : last (map f l) (f d) = f (last l d).
@@ -515,10 +515,11 @@ Theorem render_span_shows fx p m q msg : KnownClass_span fx p m q = false -> no_
 Proof.
   intros HK Hmsg. destruct (known_unpack _ _ _ _ HK) as (K1 & K2 & K3 & K4).
   unfold render_span. rewrite new_from_span_correct. cbn [bind].
-  assert (Hsl : hd [] (texts_of p m q) = the_line p (m ++ q)).
-  { unfold texts_of. destruct (m ++ q) as [|c0 r0] eqn:E.
-    - apply app_eq_nil in E as [-> ->]. rewrite meet_nil. cbn [map hd]. unfold the_line. now rewrite K4.
-    - rewrite <- E. rewrite meet_cons by (rewrite E; discriminate). cbn [map hd]. apply head_text. }
+  assert (Hsl : first_line fx p m q = the_line p (m ++ q)).
+  { unfold first_line, texts_of. destruct (m ++ q) as [|c0 r0] eqn:E.
+    - apply app_eq_nil in E as [-> ->]. rewrite meet_nil. cbn [map app].
+      destruct (fix_eoi_line fx) eqn:Ef; [reflexivity|]. unfold the_line. now rewrite K4.
+    - rewrite <- E. rewrite meet_cons by (rewrite E; discriminate). cbn [map]. apply head_text. }
   rewrite Hsl.
   destruct (aligned_prefix (span_vis m) p K1) as [Hlen Htab].
   set (line := display (span_vis m) (the_line p (m ++ q))).
@@ -529,7 +530,7 @@ Proof.
   assert (Hal : text_aligned (span_vis m) p = true) by (unfold text_aligned; now apply Nat.eqb_eq).
   assert (HCe : 2 <= Ce) by apply end_lc_col_ge2.
   assert (HC : 1 <= C) by apply spec_col_ge1.
-  set (cont := if fx then _ else _).
+  set (cont := if fix_continued fx then _ else _).
   match goal with |- exists out, format ?e = _ /\ _ =>
     replace e with (span_err (ISpan (blen p, blen p + blen m)) L C Le Ce line msg cont)
       by (unfold span_err; subst L C Le Ce; now rewrite <- !surjective_pairing) end.
@@ -543,7 +544,7 @@ Proof.
     { destruct (m ++ q) as [|c0 s0] eqn:E; [now apply app_eq_nil in E|].
       rewrite meet_cons in Emeet by (rewrite E; discriminate). discriminate. }
     destruct Hmq as [-> ->].
-    assert (Hcont : cont = None) by (subst cont; unfold texts_of; rewrite Emeet; cbn; now destruct fx, (span_vis [])).
+    assert (Hcont : cont = None) by (subst cont; unfold texts_of; rewrite Emeet; cbn; now destruct (fix_continued fx), (span_vis [])).
     rewrite Hcont in *.
     assert (Hends : Le <= L /\ C <= Ce) by (subst Le Ce L C; rewrite app_nil_r; apply end_lc_empty).
     destruct Hends as [HLe HCle].
@@ -554,7 +555,7 @@ Proof.
     + rewrite Emeet. cbn [length]. apply Hm1. lia.
     + rewrite Emeet. reflexivity.
   - (* one line *)
-    assert (Hcont : cont = None) by (subst cont; unfold texts_of; rewrite Emeet; cbn; now destruct fx, (span_vis m)).
+    assert (Hcont : cont = None) by (subst cont; unfold texts_of; rewrite Emeet; cbn; now destruct (fix_continued fx), (span_vis m)).
     rewrite Hcont in *.
     assert (Hends : Le <= L /\ C <= Ce).
     { assert (Hcase : m = [] \/ m <> []) by (destruct m; [left; reflexivity|right; discriminate]).
@@ -600,14 +601,14 @@ Proof.
         unfold count_nl at 2 in Hl. cbn [filter length] in Hl.
         subst Le. rewrite Em0, end_lc_lf. cbn [fst]. fold L. lia.
       - cbn [andb] in Hl. destruct (end_lc_nonlf p m Hm Ee) as [E1 _]. subst Le. rewrite E1. cbn [fst]. fold L. lia. }
-    set (cl := if fx then visualize_whitespace line2 else if span_vis m then line2 else visualize_whitespace line2).
-    assert (Hcont : cont = Some cl) by (subst cont cl; rewrite Hll; now destruct fx, (span_vis m)).
+    set (cl := if fix_continued fx then visualize_whitespace line2 else if span_vis m then line2 else visualize_whitespace line2).
+    assert (Hcont : cont = Some cl) by (subst cont cl; rewrite Hll; now destruct (fix_continued fx), (span_vis m)).
     rewrite Hcont in *.
     assert (Hcl : no_lf cl /\ (eqs cl (display false line2) || eqs cl (display true line2) = true)).
     { subst cl. assert (Hvz : no_lf (visualize_whitespace line2) /\
                           (eqs (visualize_whitespace line2) (display false line2) || eqs (visualize_whitespace line2) (display true line2) = true)).
       { split; [apply no_lf_visualize|]. unfold display. now rewrite eqs_refl, orb_true_r. }
-      destruct fx; [exact Hvz|]. destruct (span_vis m) eqn:Ev; [|exact Hvz].
+      destruct (fix_continued fx) eqn:Efc; [exact Hvz|]. destruct (span_vis m) eqn:Ev; [|exact Hvz].
       - specialize (K2 eq_refl eq_refl). fold r2 in K2. rewrite Es2 in K2.
         split; [now apply no_lf_no_crlf|]. unfold display. rewrite strip_no_crlf by exact K2. now rewrite eqs_refl. }
     destruct Hcl as [Hcl1 Hcl2].
